@@ -829,6 +829,102 @@ def fam_host(arg):
     return acc.result()
 
 
+# ---------------------------------------------------------------- a bound name wins over a built-in expression function
+
+SHADOW_VALUES = ('null', 'number', 'string', 'array', 'object', 'host-function')
+SHADOW_PLACES = ('globals', 'locals', 'locals-over-globals', 'globals-under-null-local')
+SHADOW_MODES = ('expression', 'expression-in-data-helper', 'script')
+
+
+def _shadow_value(kind, tag):
+    if kind == 'host-function':
+        def host_fn(args, options):  # pylint: disable=unused-argument
+            return 'host-' + tag
+        return host_fn
+    return {'null': None, 'number': 7, 'string': 'text', 'array': [1], 'object': {'a': 1}}[kind]
+
+
+def builtin_names():
+    load_impl()
+    from bare_script.library import EXPRESSION_FUNCTIONS  # pylint: disable=import-outside-toplevel,import-error
+    return sorted(EXPRESSION_FUNCTIONS)
+
+
+def check_shadow(case, acc):
+    """name(1) where `name` is a built-in expression function and is bound by the caller: the binding decides.
+    bound to a function -> its result; bound to null -> the call has no callee (runtime error); bound to another value ->
+    a failed call (null)."""
+    bs = load_impl()
+    name = builtin_names()[case['i']]
+    kind, place, mode = case['value'], case['place'], case['mode']
+    c2 = dict(case, name=name)
+    glob, loc = {}, None
+    if place == 'globals':
+        glob[name] = _shadow_value(kind, 'g')
+        winner = kind
+    elif place == 'locals':
+        loc = {name: _shadow_value(kind, 'l')}
+        winner = kind
+    elif place == 'locals-over-globals':
+        glob[name] = _shadow_value('host-function', 'g')
+        loc = {name: _shadow_value(kind, 'l')}
+        winner = kind
+    else:
+        glob[name] = _shadow_value(kind, 'g')
+        loc = {name: None}
+        winner = 'null'
+    tag = 'host-g' if place == 'globals' else 'host-l'
+    acc.evals += 1
+    try:
+        if mode == 'expression':
+            got = ('value', canon(bs.evaluate_expression(bs.parse_expression(f'{name}(1)'), {'globals': glob, 'statementCount': 0}, loc, True)))
+        elif mode == 'expression-in-data-helper':
+            # dataCalculatedField evaluates its expression in expression mode with the row as locals and `variables` merged over the globals
+            if place != 'globals':
+                return 'skip'
+            src = f"rows = arrayNew(objectNew('k', 1))\ndataCalculatedField(rows, 'out', '{name}(1)')\nreturn objectGet(arrayGet(rows, 0), 'out')\n"
+            got = ('value', canon(bs.execute_script(bs.parse_script(src), {'globals': glob})))
+        else:
+            if loc is not None:
+                return 'skip'
+            got = ('value', canon(bs.execute_script(bs.parse_script(f'return {name}(1)\n'), {'globals': glob})))
+    except bs.BareScriptRuntimeError as exc:
+        got = ('runtime-error', runtime_kind(exc))
+    except Exception as exc:  # pylint: disable=broad-exception-caught
+        acc.violation(c2, 'a value or BareScriptRuntimeError', (type(exc).__name__, str(exc)[:200]), 'host exception')
+        return 'violation'
+    if mode == 'expression-in-data-helper' and winner == 'null':
+        # a failing expression inside the data helper is a failed library call: contained, the field stays unset
+        want = [('value', None), ('runtime-error', 'other')]
+    elif winner == 'null':
+        want = [('runtime-error', 'other')]
+    elif winner == 'host-function':
+        want = [('value', tag)]
+    else:
+        want = [('value', None)]
+    if got not in want:
+        acc.violation(c2, want[0], got, f'{name}(1) with {name} bound ({place}, {kind}) in {mode} mode: the binding does not win over the built-in')
+        return 'violation'
+    acc.nontrivial += 1
+    return got[0]
+
+
+def shadow_cases():
+    n = len(builtin_names())
+    return [{'i': i, 'value': v, 'place': p, 'mode': m} for i in range(n) for v in SHADOW_VALUES for p in SHADOW_PLACES for m in SHADOW_MODES]
+
+
+def fam_shadow(arg):
+    acc = Acc('builtin_shadow')
+    for case in arg:
+        acc.cases += 1
+        out = check_shadow(case, acc)
+        acc.outcome(out)
+    if arg:
+        acc.sample(dict(arg[0], name=builtin_names()[arg[0]['i']]))
+    return acc.result()
+
+
 def families(tier):
     load_impl()
     cc = convention_cases()
@@ -843,6 +939,7 @@ def families(tier):
     cross = [{'v': v, 'how': h} for v in range(len(CROSS_VALUES)) for h in ('second-script', 'expression', 'host-call')]
     hlen = 3 if tier == 'quick' else 4
     hshards = [(length, [f]) for length in range(1, hlen + 1) for f in range(len(evs))] + [('after-setup', [f]) for f in range(len(evs))]
+    sc = shadow_cases()
     hosts = [{'mask': m, 'p': p, 'kind': k} for k in (0, 1) for m in range(1 << len(HOST_NAMES)) for p in range(len(HOST_PROGRAMS)) if k == 0 or m]
     return [
         Family('convention', fam_convention, split(cc, 16), 'parameters 0..3 x "..." x arguments 0..5 x 9 call paths (+ header spellings)', expected=len(cc)),
@@ -851,11 +948,13 @@ def families(tier):
         Family('reuse', fam_reuse, [[{'i': i} for i in range(len(REUSE_FAILS))]], 'a first run that fails inside a data helper called with variables (undefined function, statement budget, bad include) or plainly, then a second run with the SAME options object', expected=len(REUSE_FAILS)),
         Family('crossrun', fam_crossrun, [cross], 'a function value (script function, partial, nested partial, wrapper) created in one run and called in a second run with different globals: from a script, from an expression, by the host', expected=len(cross)),
         Family('host_each', fam_host_each, split(each, 8), 'the host supplies exactly one library name - every library name in turn, bound to a host function and bound to null', expected=len(each)),
+        Family('builtin_shadow', fam_shadow, split(sc, 8), 'name(1) for every built-in expression function name bound by the caller to null / a number / a string / an array / an object / a host function, in the globals, in the locals, in both, evaluated in expression mode, inside a data helper expression and in script mode: the binding always decides (function -> its result, null -> no callee, other value -> failed call)',
+               expected=len(sc)),
         Family('host', fam_host, split(hosts, 8), 'every subset of host-supplied names {arrayLength, mathAbs, abs, x} (bound to tagged host objects, and bound to null) x 8 programs', expected=len(hosts)),
     ]
 
 
-_CHECKS = {'reuse': check_reuse, 'crossrun': check_crossrun, 'host_each': check_host_each, 'convention': check_convention, 'scoping': check_scoping, 'host': check_host, 'histories': check_history}
+_CHECKS = {'builtin_shadow': check_shadow, 'reuse': check_reuse, 'crossrun': check_crossrun, 'host_each': check_host_each, 'convention': check_convention, 'scoping': check_scoping, 'host': check_host, 'histories': check_history}
 
 
 def replay(family, case):
